@@ -6,6 +6,7 @@
    mention the executable definitions.  xarray's sel / isnull / isfinite / all and the
    order of ds.dims are modelled, not proved (validated by correspondence). *)
 From XV Require Import Prelude Grid DsMap Missing GenMissing BridgeMissing GridProofs DsMapProofs.
+From XV Require Farmer GenFarmer BridgeFarmer.
 Open Scope Z_scope.
 
 (* a location is reported iff it lies in the grid of the non-ignored dimensions and every
@@ -105,6 +106,13 @@ Example C13_example_find :
   /\ find_missing (harvest_missing (fun _ _ => 0) ex_ds [9] M_isfinite) [] M_isnull = [].
 Proof. vm_compute. repeat split; reflexivity. Qed.
 
+(* closing the loop: harvest_cases hands the reported cases and the reported argument order to run_cases, which
+   parses the cases against THAT order (not the runner's own) -- GenFarmer *)
+Theorem C13_reported_order_is_used :
+  GenFarmer.gen_run_cases_call = Farmer.model_run_combos_call.
+Proof. exact BridgeFarmer.bridge_run_cases. Qed.
+
+Print Assumptions C13_reported_order_is_used.
 Print Assumptions C13_exact.
 Print Assumptions C13_never_reports_data.
 Print Assumptions C13_order_nodup.
